@@ -20,7 +20,7 @@ func Run(o *drv.Out) {
 	CorpusRootBump(o)
 	CorpusStaleLock(o)
 	CorpusUnlock(o)
-	nCases := 200
+	nCases := 150
 	if o.Tier == "thorough" {
 		nCases = 1500
 	}
